@@ -52,12 +52,74 @@ def _huge_case(rng: random.Random):
             'single': []}
 
 
+RATIONAL_TIMES = ['T0/3', '2*T0/3', 'T1/5', 'T0/7', '3*T1/7', 'T0/3 + T1/5', 'T0/6', 'T1/3']
+
+
+def rational_case(rng: random.Random):
+    """time expressions with non-dyadic rational constants ('/3', '/5', '/7') in table entry times and function
+    durations (the places that are evaluated with exact rationals), integer parameters, the template-side
+    quantities evaluated numerically before or after create_program, equal expression strings sharing ONE
+    expression object (so that a window of an enclosing sequence and an entry time share their caches), and
+    repetition counts up to 10^12. Program-side durations must be the exact rationals."""
+    values = {'T0': rng.choice([1, 2, 3, 5]), 'T1': rng.choice([1, 2, 4, 7]), 'n': rng.choice([1, 2, 3]),
+              'big': rng.choice([10 ** 6, 10 ** 9, 10 ** 12, 3 * 10 ** 11 + 7])}
+
+    def texpr():
+        return rng.choice(RATIONAL_TIMES)
+
+    used = []
+
+    def atom():
+        k = rng.random()
+        if k < 0.45:
+            d = texpr()
+            used.append(d)
+            return {'k': 'func', 'ch': 'A', 'dur': d, 'expr': rng.choice(['1 + t', '0.5', 'T0*t']), 'meas': [], 'cons': []}
+        if k < 0.9:
+            a, b = rng.choice([('T0/3', '2*T0/3'), ('T1/5', 'T1/5 + T0/3'), ('T0/7', 'T0/3'), ('T0/6', 'T0/3')])
+            entries = [['0', '1', 'hold'], [a, '2', rng.choice(['hold', 'linear', 'jump'])]]
+            if rng.random() < 0.6:
+                entries.append([b, '0', rng.choice(['hold', 'linear'])])
+            used.append(entries[-1][0])
+            return {'k': 'table', 'entries': [['A', entries]], 'meas': [], 'cons': []}
+        return {'k': 'const', 'dur': rng.choice(['T0', '0.5', 'T1']), 'amps': [['A', '1']], 'meas': []}
+
+    def tree(depth):
+        if depth <= 1:
+            return atom()
+        k = rng.choice(['seq', 'seq', 'rep', 'rep', 'for', 'rev', 'map'])
+        if k == 'seq':
+            subs = [tree(depth - 1) for _ in range(rng.choice([1, 2, 3]))]
+            # a window of the sequence that is literally one of the time expressions used below it: with shared
+            # expression objects it is evaluated numerically before the entry time / duration is evaluated exactly
+            meas = [['m', '0', rng.choice(used)]] if used and rng.random() < 0.6 else []
+            return {'k': 'seq', 'subs': subs, 'meas': meas, 'cons': []}
+        if k == 'rep':
+            return {'k': 'rep', 'body': tree(depth - 1), 'count': rng.choice(['n', '3', 'big', 'big', '2*big + 1']),
+                    'meas': [], 'cons': []}
+        if k == 'for':
+            body = {'k': 'seq', 'subs': [tree(depth - 1), {'k': 'const', 'dur': '1', 'amps': [['A', 'i']], 'meas': []}],
+                    'meas': [], 'cons': []}
+            return {'k': 'for', 'body': body, 'idx': 'i', 'range': rng.choice([['0', 'n', '1'], ['3', '0', '-2']]),
+                    'meas': [], 'cons': []}
+        if k == 'rev':
+            return {'k': 'rev', 'body': tree(depth - 1)}
+        return {'k': 'map', 'body': tree(depth - 1), 'pm': None, 'mm': None, 'cm': None}
+
+    spec = tree(rng.choice([1, 2, 3]))
+    pt = ptgen.build(spec)
+    return {'spec': spec, 'params': {k: v for k, v in values.items() if k in pt.parameter_names}, 'cm': {}, 'mm': None,
+            'single': [], 'share': rng.random() < 0.7, 'tdur_after': rng.random() < 0.4}
+
+
 def run(ctx: core.Ctx):
     ctx.rule = ('three number streams over the C01 template generator: (1) integers and dyadics - all four quantities and '
                 'the template duration must be equal rationals; (2) short decimals given directly as durations '
                 '(0.1, 2.35, ...) - the program-side durations must equal the exact rational (decisive), the float '
                 'evaluation of the template duration only within 2^-40 relative; (3) repetition counts 10^6..10^12 around '
-                'short pieces. Plus all nestings of depth <= 3 over two atoms and a malformed stream. Non-trivial = a '
+                'short pieces; (4) non-dyadic rational constants (/3, /5, /7) in table entry times and function durations '
+                'with integer parameters, template-side quantities evaluated numerically before or after create_program, '
+                'shared expression objects between windows and entry times, counts up to 10^12 - program side exact. Plus all nestings of depth <= 3 over two atoms and a malformed stream. Non-trivial = a '
                 'program is produced from a tree with more than one node')
     ctx.assumptions = [
         'TimeType.from_float turns a float into the rational of its shortest decimal representation (C14)',
@@ -85,6 +147,9 @@ def run(ctx: core.Ctx):
     base = ctx.fork('huge').getrandbits(48)
     descs += [ckd.desc(family='custom', make=huge_case, seed=base + i, label='huge-counts', skip_spec=True)
               for i in range(ctx.n(150, 3000))]
+    base = ctx.fork('rational').getrandbits(48)
+    descs += [ckd.desc(family='custom', make=rational_case, seed=base + i, label='rational-constants', skip_spec=True,
+                       toleranced=True) for i in range(ctx.n(300, 6000))]
     ckd.run_batch(descs)
     ck.replay_known()
 
